@@ -16,6 +16,10 @@ WARN     := -w
 PLAIN_FLAGS := -O2 -g1 -pthread $(WARN)
 ASAN_FLAGS  := -O1 -g1 -pthread $(WARN) -fsanitize=address,undefined -fno-omit-frame-pointer \
                -fno-sanitize-recover=undefined -fno-sanitize=enum,vla-bound -DTMCG_MAX_STACK_CHARS=4194304
+# The -D covers translation units that do not include the generated libTMCG_config.h (the scenarios: the
+# macro in libTMCG.hh is #ifndef-guarded); the library sources include that header, which defines the macro
+# unconditionally - for them sim/asancfg shadows it (it must precede -I$(REPO))
+ASAN_PRE    := -Isim/asancfg
 LIBS     := -lgmp -lgcrypt -lgpg-error -lpthread
 
 WRAPS := time sleep read write select fcntl gcry_randomize gcry_create_nonce gcry_mpi_randomize
@@ -42,21 +46,21 @@ $(B)/plain/lib/%.o: $(SRC)/%.cc
 	$(CXX) $(CPPFLAGS) $(PLAIN_FLAGS) -MMD -MP -c $< -o $@
 $(B)/asan/lib/%.o: $(SRC)/%.cc
 	@mkdir -p $(dir $@)
-	$(CXX) $(CPPFLAGS) $(ASAN_FLAGS) -MMD -MP -c $< -o $@
+	$(CXX) $(ASAN_PRE) $(CPPFLAGS) $(ASAN_FLAGS) -MMD -MP -c $< -o $@
 
 $(B)/plain/sim/%.o: sim/%.cc $(SIMHDR)
 	@mkdir -p $(dir $@)
 	$(CXX) $(CPPFLAGS) $(PLAIN_FLAGS) -MMD -MP -c $< -o $@
 $(B)/asan/sim/%.o: sim/%.cc $(SIMHDR)
 	@mkdir -p $(dir $@)
-	$(CXX) $(CPPFLAGS) $(ASAN_FLAGS) -MMD -MP -c $< -o $@
+	$(CXX) $(ASAN_PRE) $(CPPFLAGS) $(ASAN_FLAGS) -MMD -MP -c $< -o $@
 
 $(B)/plain/scen/%.o: scen/%.cc $(SIMHDR)
 	@mkdir -p $(dir $@)
 	$(CXX) $(CPPFLAGS) $(PLAIN_FLAGS) -MMD -MP -c $< -o $@
 $(B)/asan/scen/%.o: scen/%.cc $(SIMHDR)
 	@mkdir -p $(dir $@)
-	$(CXX) $(CPPFLAGS) $(ASAN_FLAGS) -MMD -MP -c $< -o $@
+	$(CXX) $(ASAN_PRE) $(CPPFLAGS) $(ASAN_FLAGS) -MMD -MP -c $< -o $@
 
 SIMOBJ_NAMES := $(basename $(notdir $(wildcard sim/*.cc)))
 PLAIN_SIMOBJ := $(foreach n,$(SIMOBJ_NAMES),$(B)/plain/sim/$(n).o)
